@@ -25,7 +25,7 @@ def run_handlers(tier, seed, work, rc1):
     evp = os.path.join(verif.EVIDENCE, "C04.json")
     ev1 = json.load(open(evp))
     binary = verif.build()
-    jobs = bc.jobs("c04spv", seed + 2, 4 if quick else 20, 40, 6 if quick else 10, mode="spv") + bc.jobs("c04deep", seed + 3, 2 if quick else 8, 40, 3 if quick else 6, mode="deep")
+    jobs = bc.jobs("c04spv", seed + 2, 4 if quick else 20, 50, 8 if quick else 10, mode="spv") + bc.jobs("c04deep", seed + 3, 3 if quick else 8, 40, 4 if quick else 6, mode="deep")
     hw = os.path.join(work, "handlers")
     os.makedirs(hw, exist_ok=True)
     try:
